@@ -163,6 +163,9 @@ def gen_workload(tape):
     if tape.flag("alloc_fault", 1, 8):
         w["alloc_fault"] = [tape.pick(["build", "query", "query"], "af_kind"),
                             1 + tape.choice(3, "af_k")]
+    # the index travels: queried through a pickle round trip (as a process
+    # pool would ship it) or a deep copy instead of the original object
+    w["travel"] = tape.pick([None, None, None, "pickle", "deepcopy"], "travel")
     # two caller threads share the index: each takes every second query
     w["two_callers"] = tape.flag("two_callers", 1, 6)
     w["line_stride"] = 5 + tape.choice(30, "linestride") if w["two_callers"] else 0
@@ -366,6 +369,24 @@ def run_one(tape, only=None):
                 used_perm.clear()
                 used_perm.update(saved)
                 probe("other_index_built_in_between")
+            if w["travel"]:
+                import copy as _copy
+                import pickle as _pickle
+                saved = dict(used_perm)
+                for attempt in (1, 2):
+                    try:
+                        index = _pickle.loads(_pickle.dumps(index)) \
+                            if w["travel"] == "pickle" else _copy.deepcopy(index)
+                        probe("index_" + w["travel"])
+                        break
+                    except Exception as e:  # noqa
+                        if plan.take_fired():
+                            continue      # an injected allocation failure: try again
+                        V.append(_viol(f"C06/{w['travel']}/exception/{type(e).__name__}",
+                                       f"{e}"[:300]))
+                        break
+                used_perm.clear()
+                used_perm.update(saved)
             if w["shuffle"]:
                 probe("perm_" + ("random" if w["perm"] == "random" else
                                  "reverse" if w["perm"] == "reverse" else
